@@ -125,12 +125,14 @@ fn perm_arity(n: usize) -> u32 {
     match n {
         0 | 1 => 1,
         2 => 2,
-        _ => 6,
+        3 => 6,
+        _ => 9,
     }
 }
 
 /// the p-th variant permutation of 0..n (p < perm_arity(n)); p = 0 is the identity.
-/// For n <= 3 these are all permutations.
+/// For n <= 3 these are all permutations; for larger n nine representatives: identity, reversal, the two
+/// rotations, swaps at either end, and three that keep both end points fixed.
 fn perm_variant(n: usize, p: u32) -> Vec<usize> {
     let mut v: Vec<usize> = (0..n).collect();
     if n < 2 {
@@ -148,7 +150,11 @@ fn perm_variant(n: usize, p: u32) -> Vec<usize> {
         2 => v.rotate_left(1),
         3 => v.rotate_right(1),
         4 => v.swap(0, 1),
-        _ => v.swap(n - 2, n - 1),
+        5 => v.swap(n - 2, n - 1),
+        // permutations that keep both end points (n >= 4 only)
+        6 => v.swap(1, 2),
+        7 => v[1..n - 1].reverse(),
+        _ => v.swap(n / 2 - 1, n / 2 + (n % 2)),
     }
     v
 }
